@@ -20,7 +20,7 @@ LEVEL = 'exploration'
 RULE = ('(a) every sequence of operations up to the stated depth over a fixed alphabet of concrete operations (push, pop, pop(i), '
         'insert, remove, read, write, compound write, del, index_of, len, in for the list; read, write, compound write, del, '
         'get, get with default, keys, values, items, len, in, remove for the dict; indices 0, 1, -1, -2, 1.9, -1.5, 5, -7 and '
-        'keys "a", "1", 1, 1.0, 1.5, True, None; empty list / dict literals evaluated repeatedly by a lambda body and by '
+        'keys "a", "1", 1, 1.0, 1.5, True, None and host-supplied Python ints; empty list / dict literals evaluated repeatedly by a lambda body and by '
         'repeated steps) from an empty state (plain parser) and a populated state (parser with a parse cache: every step text is '
         'parsed once and its tree evaluated again), explored as a DFS (exhaustive; distinct '
         'by construction); (b) a Hypothesis RuleBasedStateMachine with generated values up to 60 steps. After every step: '
@@ -53,6 +53,8 @@ def lit(v):
         return '"%s"' % v
     if isinstance(v, D):
         return str(v) if v >= 0 else '(0-%s)' % str(-v)
+    if type(v) is int and 0 <= v <= 3:
+        return 'hi%d' % v       # a Python int supplied by the host (what len() and index_of() return, too)
     raise TypeError(v)
 
 
@@ -73,7 +75,7 @@ class State:
         self.L = copy.deepcopy(L)
         self.D = copy.deepcopy(Dd)
         self.V = [[D(1)]]
-        self.names = {'l': copy.deepcopy(L), 'd': copy.deepcopy(Dd), 'v': copy.deepcopy(self.V)}
+        self.names = {'l': copy.deepcopy(L), 'd': copy.deepcopy(Dd), 'v': copy.deepcopy(self.V), 'hi0': 0, 'hi1': 1, 'hi2': 2, 'hi3': 3}
         self.cached = False
 
     def clone(self):
@@ -336,7 +338,8 @@ ALPHABET = (
      ('readd', 'a'), ('readd', D(1)), ('readd', '1'), ('readd', D('1.0')), ('readd', True), ('readd', 'None'),
      ('deld', 'a'), ('deld', D(1)), ('deld', D('1.0')), ('get', D(1)), ('getd', 'zz', D(2)), ('get', True),
      ('keys',), ('values',), ('items',), ('lend',), ('cwrited', 'a'), ('cwrited', D(1)), ('ind', 'a'), ('ind', '1'),
-     ('removed', '1'), ('dictlit', D(1), D(5)), ('dictlit', D('1.0'), D(6)), ('nestw', 'n'), ('nestl',), ('sortd',), ('copyd',), ('freshl',), ('freshd',), ('rows',)]
+     ('removed', '1'), ('dictlit', D(1), D(5)), ('dictlit', D('1.0'), D(6)), ('nestw', 'n'), ('nestl',), ('sortd',), ('copyd',), ('freshl',), ('freshd',), ('rows',),
+     ('writed', 1, D(7)), ('readd', 1), ('deld', 1), ('get', 2), ('writel', 0, D(3)), ('readl', 1), ('cwrited', 1), ('dictlit', 2, D(8))]
 )
 INITS = [([], {}), ([D(1), 'x'], {'a': D(1), '1': D(2)})]
 
@@ -394,8 +397,8 @@ def dfs(st, depth, prefix, init, stats, first_ops=None):
 
 
 # ------------------------------------------------------------------------------------------------ stateful part
-IDX = [D(0), D(1), D(2), D(-1), D(-2), D('1.9'), D('-1.5'), D(5), D(-7), D('0.5'), D(3), D(-3)]
-KEYS = ['a', 'b', '1', D(1), D('1.0'), D('1.5'), True, None, 'True', 'None', D(-1), '1.0', False, D(0), '0']
+IDX = [D(0), D(1), D(2), D(-1), D(-2), D('1.9'), D('-1.5'), D(5), D(-7), D('0.5'), D(3), D(-3), 0, 1, 2]
+KEYS = ['a', 'b', '1', D(1), D('1.0'), D('1.5'), True, None, 'True', 'None', D(-1), '1.0', False, D(0), '0', 0, 1, 2, '2']
 SVALS = [D(1), D(2), 'x', None, True, D('2.50'), D(0), '', False]
 _CTX = {'excluded': [], 'last': None, 'stats': None}
 
